@@ -93,6 +93,9 @@ class DataMixin:
             return VSym(self.seq_nth(obj.e, idx, node))
         if isinstance(obj, VBytes):
             raise Undecided('indexing bytes')
+        if isinstance(obj, VStr) and not obj.s.startswith('<'):
+            i = self.concrete_index(idx, len(obj.s), node)
+            return VStr(obj.s[i])
         if isinstance(obj, VListAt):
             return VSym(self.seq_nth(self.seq_get(obj), idx, node))
         if isinstance(obj, VSym):
@@ -202,7 +205,10 @@ class DataMixin:
             res = items[l:u]
             return VTuple(res) if isinstance(obj, VTuple) else ex.alloc(HList(res))
         if isinstance(obj, VStr):
-            return VStr('<str>')
+            if obj.s.startswith('<'):
+                return VStr('<str>')
+            n = len(obj.s)
+            return VStr(obj.s[self.concrete_bound(lo, n, 0):self.concrete_bound(hi, n, n)])
         seq = None
         if isinstance(obj, VSeq):
             seq = obj.e
@@ -448,6 +454,12 @@ class DataMixin:
         return VStr(s.s.upper())
 
     def sm_format(self, s, *a, **k):
+        vals = list(a) + list(k.values())
+        if not s.s.startswith('<') and all(isinstance(x, VStr) and not x.s.startswith('<') for x in vals):
+            try:
+                return VStr(s.s.format(*[x.s for x in a], **{kk: v.s for kk, v in k.items()}))
+            except (IndexError, KeyError, ValueError):
+                pass
         return VStr('<str>')
 
     def sm_startswith(self, s, p):
